@@ -279,11 +279,49 @@ def case_random_points(ctx, rng, idx):
     check_curves(ctx, m, cls, M, snr, "random-1d", rng)
 
 
+def case_cross_family(ctx, rng, idx):
+    """Modulators of the same order from different families (and several
+    objects of one family) queried alternately with the SAME scalar SNR and
+    packet length: every answer must follow from that object's own BER."""
+    M = int(rng.choice([2, 4, 16, 64, 256]))
+    mods = []
+    if M == 2:
+        mods = [("BPSK", F.BPSK()), ("PSK", F.PSK(2))]
+    elif M == 4:
+        mods = [("QPSK", F.QPSK()), ("PSK", F.PSK(4)), ("QAM", F.QAM(4))]
+    else:
+        mods = [("PSK", F.PSK(M)), ("QAM", F.QAM(M)), ("PSK", F.PSK(M, 0.3))]
+    order = list(rng.permutation(len(mods))) * 2
+    snr = float(rng.uniform(-5, 25)) if rng.random() < 0.7 else int(rng.integers(-5, 25))
+    L = int(rng.choice([1, 8, 100, 1000, 12000]))
+    for j in order:
+        name, m = mods[int(j)]
+        tag = {"class": name, "M": M, "snr_db": snr, "packet_length": L,
+               "order_of_queries": [mods[int(i)][0] for i in order]}
+        okc, vals = ctx.call("per-se-relations", lambda: (
+            m.calcTheoreticalBER(snr), m.calcTheoreticalPER(snr, L),
+            m.calcTheoreticalSpectralEfficiency(snr, L), m.calcTheoreticalSER(snr)),
+            cls="cross-family-raised", detail=tag)
+        if not okc:
+            continue
+        ber, per, se, ser = (float(v) for v in vals)
+        want_per = -math.expm1(L * math.log1p(-ber)) if ber < 1 else 1.0
+        ctx.within("per-se-relations", abs(per - want_per), 1e-12 + 64 * EPS * L * max(ber, 1e-300),
+                   "per:cross-family", {**tag, "ber": ber, "per": per, "want": want_per})
+        ctx.within("per-se-relations", abs(se - math.log2(M) * (1 - per)), 1e-12,
+                   "se:cross-family", {**tag, "se": se, "per": per})
+        ctx.ev("ber-bounds", ber <= ser * (1 + 1e-12) + 4 * EPS and
+               ser <= math.log2(M) * ber * (1 + 1e-12) + 4 * EPS, cls="cross-family",
+               detail={**tag, "ber": ber, "ser": ser})
+    ctx.sig("cross-family", M, L, isinstance(snr, int))
+
+
 NS = len(specs())
 GENS = {
     "curves": Gen(case_curves, NS * len(FORMS) * 4, NS * len(FORMS) * 4,
                   exhaustive=True),
     "random-points": Gen(case_random_points, 150, 60000),
+    "cross-family": Gen(case_cross_family, 200, 40000),
 }
 MIN_EVALS = {"ser-formula": 5000, "ber-bounds": 5000, "monotone-in-snr": 2000,
              "per-se-relations": 5000, "psk-craig-bounds": 200,
